@@ -122,16 +122,57 @@ func C18(c *vh.Ctx) {
 			c.Violation("C18/differs-from-reference/"+c18sit(cs), fmt.Sprintf("Step gave %s; reference allows %v", obs.Key(), keys(refs)), cs)
 		}
 	}
+	// the same step as a later step of a walk (from the node in front): every state the walk passes through after it
+	// has the permanent bindings too
+	checkWalk := func(spec *core.Spec, cs stepCase) {
+		if _, have := cs.Spec.Nodes["pre"]; !have || cs.Node != "n0" {
+			return
+		}
+		hasPerm := false
+		for k := range cs.Bs {
+			if strings.HasSuffix(k, "!") {
+				hasPerm = true
+			}
+		}
+		if !hasPerm {
+			return
+		}
+		c.Eval()
+		o := doWalk(spec, "pre", cs.Bs, []interface{}{cs.Pending}, 3, "")
+		if o.Panicked {
+			c.Violation("C18/panic/walk/"+o.Where, "Walk panicked with permanent bindings present: "+o.PMsg, cs)
+			return
+		}
+		if o.W == nil {
+			return
+		}
+		for i, sd := range o.W.Strides {
+			if sd == nil || sd.To == nil {
+				continue
+			}
+			for k, v := range cs.Bs {
+				if !strings.HasSuffix(k, "!") {
+					continue
+				}
+				got, have := sd.To.Bs[k]
+				if !have || rstep.Canon(got) != rstep.Canon(v) {
+					c.Violation("C18/walk/permanent-binding-lost-or-changed/"+c18sit(cs), fmt.Sprintf("a walk from the node in front of n0: after stride %d the state is %s/%s; permanent binding %s was %s", i+1, sd.To.NodeName, rstep.Canon(M(sd.To.Bs)), k, rstep.Canon(v)), cs)
+					return
+				}
+			}
+		}
+	}
 	if c.Replay != "" {
 		var cs stepCase
 		if c.LoadReplay(&cs) == nil {
 			if spec, err := cs.Spec.Build(); err == nil {
 				check(spec, cs)
+				checkWalk(spec, cs)
 			}
 		}
 		return
 	}
-	c.Rule("states with 0-2 permanent ('k!', 'cfg!') and 0-2 ordinary bindings x action and guard programs (delete / overwrite / clear / fresh object / same object / empty / null / throw / non-object / native nil execution / partial execution / deep mutation; native and ECMAScript) x branch pattern (none; binding an ordinary variable; binding a permanent variable '?dev!'; an empty map, which binds nothing) x node shape (action node with guarded branch and a fallback; message node with guarded branch; action node whose only branch is guarded, so that it may follow no branch; action node without branches) - Go actions also editing the map they were given and handing back another x the guarded branch's target (a node; the branch-target variable '@to!', a permanent binding that names a node) x error routing; oracle: every permanent binding present before is present and equal in any resulting state, no crash, and the step is one the reference allows. non-trivial = state has a permanent binding.")
+	c.Rule("states with 0-2 permanent ('k!', 'cfg!') and 0-2 ordinary bindings x action and guard programs (delete / overwrite / clear / fresh object / same object / empty / null / throw / non-object / native nil execution / partial execution / deep mutation; native and ECMAScript) x branch pattern (none; binding an ordinary variable; binding a permanent variable '?dev!'; an empty map, which binds nothing) x node shape (action node with guarded branch and a fallback; message node with guarded branch; action node whose only branch is guarded, so that it may follow no branch; action node without branches) - Go actions also editing the map they were given and handing back another x the guarded branch's target (a node; the branch-target variable '@to!', a permanent binding that names a node) x error routing; oracle: every permanent binding present before is present and equal in any resulting state, no crash, and the step is one the reference allows; each step also as the second step of a walk that starts at a node in front (every state the walk passes through keeps the permanent bindings). non-trivial = state has a permanent binding.")
 	var idx uint64
 	for _, native := range []bool{true, false} {
 		ps := c18Progs(native)
@@ -176,7 +217,9 @@ func C18(c *vh.Ctx) {
 							}
 							node = &rstep.ANode{Type: "message", Branches: []rstep.ABranch{{Pattern: pat, Guard: g, Target: n1}, {Target: "n2"}}}
 						}
-						as := &rstep.ASpec{Nodes: map[string]*rstep.ANode{"n0": node, "n1": {NoBranches: true}, "n2": {NoBranches: true}, "errh": {NoBranches: true}}}
+						// "pre": a node in front of n0, so that a walk reaches n0 as its second step
+						as := &rstep.ASpec{Nodes: map[string]*rstep.ANode{"n0": node, "n1": {NoBranches: true}, "n2": {NoBranches: true}, "errh": {NoBranches: true},
+							"pre": {Type: "bindings", Branches: []rstep.ABranch{{Target: "n0"}}}}}
 						spec, err := as.Build()
 						if err != nil {
 							c.Violation("C18/compile-failed", err.Error(), as)
@@ -190,6 +233,7 @@ func C18(c *vh.Ctx) {
 								for _, bs := range c18States {
 									cs := stepCase{Spec: &as2, Node: "n0", Bs: bs, Pending: M{"a": 2.0}}
 									check(spec, cs)
+									checkWalk(spec, cs)
 									if c.WantSample() && act != nil && g != nil && len(bs) > 2 {
 										c.Sample(cs)
 									}
